@@ -35,6 +35,12 @@ type Task struct {
 	System  bool // started by instrumented (gSuneido) code rather than by the harness
 	Steps   int64
 	blockOn string
+	// stall fault: after armAt more lock / condition / wait group operations of this task it
+	// is not scheduled for armDur steps (unless nothing else can run)
+	syncSteps    int64
+	armAt        int64
+	armDur       int64
+	suspendUntil int64
 }
 
 func (t *Task) String() string { return fmt.Sprintf("T%d(%s)", t.ID, t.Name) }
@@ -46,10 +52,11 @@ const (
 	PolicyRunBlock        // run to block with rare preemptions
 	PolicyStarve          // random, but one victim task is starved for stretches
 	PolicyFair            // round robin, fixed budgets (used for the final phase)
+	PolicyPCTComm         // like PCT, but the change points are counted in lock / condition / wait group operations
 	NPolicies      = 4    // number of tape-selectable policies
 )
 
-var policyNames = []string{"random", "pct", "runblock", "starve", "fair"}
+var policyNames = []string{"random", "pct", "runblock", "starve", "fair", "pctcomm"}
 
 // Config of one run.
 type Config struct {
@@ -101,8 +108,14 @@ type Sim struct {
 	policy   int
 	fair     bool
 	changes  []int64 // PCT change points (in Steps)
-	victim   int
-	rr       int
+	cchanges []int64 // PCTComm change points (in SyncSteps)
+	demote   bool    // a PCTComm change point has been reached: demote the task at this yield
+	stallNow bool    // a stall fault starts at this yield: park the task whatever the budget
+	Stalls   int64   // stall faults that fired
+	// SyncSteps counts the yields that precede lock, condition and wait group operations
+	SyncSteps int64
+	victim    int
+	rr        int
 
 	terminating atomic.Bool
 	fail        *Failure
@@ -347,12 +360,14 @@ func (s *Sim) Yield() {
 	}
 	if s.budget > 0 {
 		s.budget--
-		if len(s.changes) == 0 || s.Steps < s.changes[0] {
+		if !s.demote && !s.stallNow && (len(s.changes) == 0 || s.Steps < s.changes[0]) {
 			return
 		}
 	}
+	s.stallNow = false
 	t := s.self()
 	if t == nil {
+		s.demote = false
 		if gid() == s.schedGid {
 			return
 		}
@@ -366,8 +381,64 @@ func (s *Sim) Yield() {
 		s.changes = s.changes[1:]
 		t.prio = -int(s.Steps) // lower than every initial priority, later changes lower still
 	}
+	if s.demote {
+		s.demote = false
+		t.prio = -int(s.Steps)
+	}
 	t.Steps++
 	s.park(t, stParked)
+}
+
+// YieldSync is the soft yield placed before lock, condition variable and wait group
+// operations (the points where tasks communicate). Under the pctcomm policy the priority
+// change points are counted in these.
+func (s *Sim) YieldSync() {
+	if !s.inspecting && !s.terminating.Load() {
+		s.SyncSteps++
+		if len(s.cchanges) > 0 && s.SyncSteps >= s.cchanges[0] {
+			s.cchanges = s.cchanges[1:]
+			s.demote = true
+		}
+		if t := s.cur; t != nil && t.armAt > 0 {
+			t.syncSteps++
+			if t.syncSteps >= t.armAt {
+				t.armAt = 0
+				t.suspendUntil = s.Steps + t.armDur
+				s.stallNow = true
+				s.Stalls++
+				s.Count("fault.task-stall", 1)
+				if stallTrace {
+					var pcs [12]uintptr
+					n := runtime.Callers(2, pcs[:])
+					fr := runtime.CallersFrames(pcs[:n])
+					var sb strings.Builder
+					for {
+						f, more := fr.Next()
+						if !strings.Contains(f.Function, "simrt") && !strings.Contains(f.Function, "simsync") {
+							fmt.Fprintf(&sb, "<%s:%d", f.Function[strings.LastIndex(f.Function, "/")+1:], f.Line)
+						}
+						if !more {
+							break
+						}
+					}
+					s.Count("stall-at:"+sb.String(), 1)
+				}
+			}
+		}
+	}
+	s.Yield()
+}
+
+// StallAfter arms a stall fault for the calling task: after k more lock / condition / wait
+// group operations (i.e. somewhere inside the operation it is about to perform) it stops
+// being scheduled for dur steps, unless nothing else can run. The caller draws k and dur
+// from the tape.
+func (s *Sim) StallAfter(k, dur int64) {
+	if t := s.self(); t != nil && !s.fair {
+		t.syncSteps = 0
+		t.armAt = k
+		t.armDur = dur
+	}
 }
 
 func (s *Sim) YieldHard() {
@@ -620,19 +691,19 @@ func (s *Sim) Tasks() []*Task {
 
 // Result of one run.
 type Result struct {
-	Failure  *Failure
-	Steps    int64
-	Switches int64
-	Advances int64
-	SimTime  time.Duration
-	Tasks    int
-	Policy   string
-	Digest   uint64
-	Stats    map[string]int64
-	Trace    []string
-	Streams  map[string][]uint64
-	Stalled  bool
-	Panics   []string
+	Failure   *Failure
+	Steps     int64
+	Switches  int64
+	Advances  int64
+	SimTime   time.Duration
+	Tasks     int
+	Policy    string
+	Digest    uint64
+	Stats     map[string]int64
+	Trace     []string
+	Streams   map[string][]uint64
+	Stalled   bool
+	Panics    []string
 	Abandoned string
 }
 
@@ -696,9 +767,20 @@ func stack() string {
 func (s *Sim) choosePolicy() {
 	p := s.cfg.Policy
 	if p < 0 {
-		p = s.sched.Pick(3, 3, 3, 1)
+		p = s.sched.Pick(3, 2, 3, 1, 0, 3)
 	}
 	s.policy = p
+	if p == PolicyPCTComm {
+		d := s.cfg.PCTDepth
+		if d <= 0 {
+			d = 3
+		}
+		for n := 1 + s.sched.Choose(d); n > 0; n-- {
+			h := []int{20, 80, 320, 1280}[s.sched.Choose(4)]
+			s.cchanges = append(s.cchanges, int64(1+s.sched.Choose(h)))
+		}
+		sort.Slice(s.cchanges, func(i, j int) bool { return s.cchanges[i] < s.cchanges[j] })
+	}
 	if p == PolicyPCT {
 		d := s.cfg.PCTDepth
 		if d <= 0 {
@@ -762,6 +844,7 @@ func (s *Sim) loop() {
 			// end of the adversarial phase: fair scheduling, no time faults
 			s.fair = true
 			s.changes = nil
+			s.cchanges = nil
 			s.Note("fair-phase")
 		}
 		if s.fair && (s.Steps > s.cfg.MaxSteps+s.cfg.FairSteps || s.Elapsed() > s.cfg.MaxSimTime+s.cfg.FairSimTime) {
@@ -782,6 +865,18 @@ func (s *Sim) loop() {
 			s.advance(false)
 			continue
 		}
+		if !s.fair {
+			// stalled tasks wait, unless nothing else can run
+			var awake []*Task
+			for _, t := range run {
+				if t.suspendUntil <= s.Steps {
+					awake = append(awake, t)
+				}
+			}
+			if len(awake) > 0 && len(awake) < len(run) {
+				run = awake
+			}
+		}
 		t := s.pick(run)
 		s.Switches++
 		s.noteSwitch(t)
@@ -792,6 +887,7 @@ func (s *Sim) loop() {
 
 var schedLog *os.File
 var yieldTrace = os.Getenv("VERIF_YIELDTRACE") != ""
+var stallTrace = os.Getenv("VERIF_STALLTRACE") != ""
 
 func init() {
 	if p := os.Getenv("VERIF_SCHEDLOG"); p != "" {
@@ -825,7 +921,7 @@ func (s *Sim) pick(run []*Task) *Task {
 		policy = PolicyFair
 	}
 	switch policy {
-	case PolicyPCT:
+	case PolicyPCT, PolicyPCTComm:
 		best := run[0]
 		for _, t := range run[1:] {
 			if t.prio > best.prio {
